@@ -1,6 +1,7 @@
 package props
 
 import (
+	"crypto/tls"
 	"encoding/json"
 	"fmt"
 	"sort"
@@ -155,6 +156,49 @@ func c14Scenarios() []c14Scenario {
 			}
 		}}
 	}
+	// S7: the TLS accept path (real handshake) concurrent with Stop and with CONFIG SET
+	out = append(out, c14Scenario{Name: "S7-tls-accept-vs-stop", New: func() *sched.Run {
+		var outcomes []string
+		return &sched.Run{
+			Body: func() {
+				kit, err := getKit()
+				if err != nil {
+					return
+				}
+				s := srv.NewServer(srv.NewDouble())
+				s.SetTLSPort(6380)
+				s.SetTLSCertFile(kit.ServerCert)
+				s.SetTLSKeyFile(kit.ServerKey)
+				s.SetTLSCaCertFile(kit.CAFile)
+				if s.Start() != nil {
+					return
+				}
+				for i := 0; i < 2; i++ {
+					i := i
+					vrt.Go(fmt.Sprintf("client%d", i), func() {
+						raw, err := vrt.Dial(":6380")
+						if err != nil {
+							outcomes = append(outcomes, "refused")
+							return
+						}
+						tc := tls.Client(raw, kit.clientTLSConfig(kit.Clients["valid"]))
+						if tc.Handshake() != nil {
+							outcomes = append(outcomes, "handshake-failed")
+							raw.Close()
+							return
+						}
+						cl := sched.Wrap(tc, raw)
+						r := cl.Do("CONFIG", "SET", fmt.Sprintf("k%d", i), "v")
+						outcomes = append(outcomes, r.String())
+						tc.Close()
+					})
+				}
+				err = s.Stop()
+				outcomes = append(outcomes, fmt.Sprint("stop:", err != nil))
+			},
+			Verdict: c14Verdict(func() string { sort.Strings(outcomes); return strings.Join(outcomes, ",") }),
+		}
+	}})
 	out = append(out, lifecycle("S4-stop-vs-clients", func(s *redis.Server) error { return s.Stop() }, false))
 	out = append(out, lifecycle("S5-restart-with-idle-client", func(s *redis.Server) error { return s.Restart() }, true))
 	out = append(out, lifecycle("S5b-restart-with-new-password", func(s *redis.Server) error { s.SetRequirePass("pw"); return s.Restart() }, true))
@@ -173,6 +217,7 @@ func c14Framework(r vrt.Race) bool {
 }
 
 func c14Run(c *fw.Ctx) {
+	defer cleanupKit()
 	bound := 2
 	if c.Thorough() {
 		bound = 3
@@ -272,7 +317,7 @@ func init() {
 	fw.Register(&fw.Prop{
 		ID:    "C14",
 		Level: "model_checking",
-		Rule:  "8 scenarios on the real Start/accept loop/connection goroutines over the in-memory network: two clients doing CONFIG SET/GET; a client connecting while another CONFIG SETs requirepass; two clients running a command of every executor family (and AUTH sequences) against a race-free double; two clients connecting/disconnecting while the harness enumerates the registry (Conns, ConnByUUID, connection accessors); Stop concurrent with clients mid-command and connecting; Restart with an idle client; Restart after SetRequirePass. Every schedule within deviation bound 2 (thorough 3) is executed with every field access of the instrumented framework feeding a vector-clock happens-before oracle (edges: go, mutex/RWMutex release-acquire, sync.Map per key, connection write->read, dial->accept, close->EOF/error; scheduler hand-offs are NOT edges); locations found racy become scheduling points and the exploration is repeated until the racy set is stable. A race is an unordered pair of access sites on one location with at least one write.",
+		Rule:  "9 scenarios on the real Start/accept loop/connection goroutines over the in-memory network: two clients doing CONFIG SET/GET; a client connecting while another CONFIG SETs requirepass; two clients running a command of every executor family (and AUTH sequences) against a race-free double; two clients connecting/disconnecting while the harness enumerates the registry (Conns, ConnByUUID, connection accessors); Stop concurrent with clients mid-command and connecting; Restart with an idle client; Restart after SetRequirePass; two TLS clients (real handshake) doing CONFIG SET while Stop runs. Every schedule within deviation bound 2 (thorough 3) is executed with every field access of the instrumented framework feeding a vector-clock happens-before oracle (edges: go, mutex/RWMutex release-acquire, sync.Map per key, connection write->read, dial->accept, close->EOF/error; scheduler hand-offs are NOT edges); locations found racy become scheduling points and the exploration is repeated until the racy set is stable. A race is an unordered pair of access sites on one location with at least one write.",
 		Assumptions: []string{
 			"setters documented as pre-start configuration (SetTracer, SetCommandHandler, RegisterExexutor, SetPort) are called before Start only; SetRequirePass before Restart is called by the lifecycle thread between Stop-free calls as the repository's own tests do",
 			"the race-detector stress with 2..32 clients is replaced by exhaustive small scenarios: a race is a pair of accesses, two contending threads exhibit it",
